@@ -822,6 +822,15 @@ func (proxy *PgProxy) ProxyDatabaseConnection(ctx context.Context, errCh chan<- 
 				return
 			}
 			last := packetHandler.IsReadyForQuery()
+			if !last {
+				// keep the protocol state in sync with the skipped part of the response: CommandComplete or
+				// ErrorResponse finish the pending query packet, otherwise it stays in the queue and
+				// results of all next queries are processed with settings of this one
+				if err := proxy.protocolState.HandleDatabasePacket(packetHandler); err != nil {
+					errCh <- base.NewDBProxyError(err)
+					return
+				}
+			}
 			if last {
 				state = stateServe
 				// Process the ReadyForQuery packet to reset the state of the
